@@ -106,6 +106,22 @@ CLAIMED = {
         note="trusted: vlib/bashparse.py's reading of the bash subset used; per-shell patterns that recognise the sibling exit line; byte length = bash ${#x} for ASCII literals",
         design="5/C12",
     ),
+    "C01": dict(
+        technique="static analysis: provenance of the emitter call arguments in main::aot (pipeline and shell arms), control-flow / def-use rules on the parsed bash skeleton (word walk, fallback-level loop, prefix filter, per-iteration scratch arrays) for every guard-flag assignment examined, flag agreement between tables and readers",
+        text="Decides the structural necessary conditions of C01 on /repo's current source: the bash emitter receives the minimised automaton and the command name of the same validated grammar, for the selected shell; the emitted word walk starts at the start state, tries literal > within-word > command > any-word "
+        "transitions in that order from the tables written for them, advances exactly one word per transition, fails when no block matches, compares literals with the quoted word; the fallback loop visits levels 0..=max, reads each source from the level table at the current state, filters every source with the typed word, "
+        "stops at the first level with a match, and uses COMP_WORDBREAKS only to trim the reply after the last word-break character. It does NOT decide that bash executes the skeleton as assumed, nor the automaton (C02/C03) or the within-word matcher (C12). Breaking any decided clause breaks C01; the clauses holding do not prove it.",
+        note="trusted: vlib/bashparse.py's reading of the bash subset used; syn's parse; provenance terms of vlib/ast.py. One open known finding (W4).",
+        design="5/C01",
+    ),
+    "C17": dict(
+        technique="static analysis: call-site classification and def-use rules on the parsed bash skeleton (command invocations, their arguments, output parsing, filtering, table guards), per-iteration scratch arrays, shared command-id set and command-text field flow on the Rust side",
+        text="Decides on /repo's current source, for every flag assignment examined: the body of each command function is the raw command text and its id is the index in the one set all tables use; the arguments at each of the four call-site classes are the documented ones, quoted; output lines are split at a tab only and the first field kept; "
+        "completion candidates pass the prefix filter with the prefix the command received; every invocation iterates the command-table cell of the current state; in matching a state change happens only under equality with the quoted word, on candidate arrays reset per iteration; the command text reaching the automaton is that of the definition chosen for the target shell. "
+        "It does NOT decide what user commands print or how a real bash runs process substitutions. One open known finding (leaving the walk at the last complete word).",
+        note="trusted: vlib/bashparse.py; the classification of call sites by enclosing function and loop; syn's parse",
+        design="5/C17",
+    ),
     "C02": dict(
         technique="static analysis: syn syntax-tree rules (traversal completeness, rebuild-preserves, translation table, field-flow provenance, pass order)",
         text="Decides the shape-visible necessary conditions of C02 on /repo's current source (every pass descends into every child; rebuilt nodes keep their labels; "
